@@ -111,6 +111,10 @@ def materialize(world, scratch, vcf_name="in.vcf", phased_truth=False, tag="PS")
         for e in entries:
             g = gt_of(e)
             alleles.append(0 if g is None else g[r["hap"]])
+        for i_ in r.get("force_ref", ()):
+            # the read ends inside the REF stretch of that variant: it shows the reference bases there whatever its
+            # haplotype carries
+            alleles[i_] = 0
         for copy in range(r.get("n", 1)):
             n += 1
             counters[r.get("bam", 0)] += 1
